@@ -356,7 +356,9 @@ def main(tier):
                "judged against an independent model of the directive rule; distinct_nontrivial = distinct (row, role)")
     ck.assumptions = ["model: nearest non-blank line above consists solely of a // or single-line /* */ comment whose "
                       "trimmed case-folded text equals the directive",
-                      "trailing-comment directives on code lines, doc comments and multi-line block comments are don't-care (not generated)"]
+                      "a directive comment that trails code on the nearest non-blank line above counts (it is a comment on that line); doc "
+                      "comments and multi-line block comments are don't-care (not generated)",
+                      "string literals holding `//` or directive-comment text on the line above are judged by clauses of their own (finding D24)"]
     return ck.finish()
 
 
